@@ -505,13 +505,19 @@ func (*ConfluentHeader) DecodeIndex(b []byte, maxLength int) ([]int, []byte, err
 	if maxLength > 0 && int(l) > maxLength { // index count is greater than expected
 		return nil, nil, ErrNotRegistered
 	}
-	index := make([]int, l)
-	for i := range index {
+	// The count comes from the input: every index needs at least one
+	// byte, so never allocate for more indices than the input can hold.
+	n := l
+	if n > int64(len(r.b)) {
+		n = int64(len(r.b))
+	}
+	index := make([]int, 0, n)
+	for i := int64(0); i < l; i++ {
 		idx, err := binary.ReadVarint(br)
 		if err != nil {
 			return nil, nil, err
 		}
-		index[i] = int(idx)
+		index = append(index, int(idx))
 	}
 	return index, r.b, nil
 }
